@@ -326,3 +326,52 @@ def r19_6_lock_is_a_lock(ctx: Ctx) -> RuleResult:
                 f, n = next((f, n) for f, n in stores if not real(n.value))
                 rr.fail(c.qual, f"lock field `{fld}` is initialised with `{unparse(n.value)[:70]}`: not a lock on every path, so `with` on it excludes nobody", ctx.loc(f, n) if f else c.mod.rel)
     return rr
+
+
+@rule("C19")
+def r19_9_locks_are_created_once(ctx: Ctx) -> RuleResult:
+    """A lock protects an object only as long as every thread uses THE SAME lock.  A method that re-runs `__init__` on a live
+    object (a "reset by re-initialising") or assigns the lock attribute again replaces the lock while another thread waits on the
+    old one: that thread and a later caller then hold different locks and run the critical section together (two reads of an
+    auto-advancing FakeClock return the same instant).  In every class that creates a threading lock, the lock attribute is
+    assigned only in the constructor and no method calls `self.__init__`."""
+    rr = RuleResult("R19.9", "a lock attribute is assigned only in the constructor and no method re-runs __init__ on a live object (the lock is never replaced under a waiting thread)", min_instances=1)
+    M = ctx.M
+    CTORS = ("__init__", "_ctor", "__new__")
+    n_cls = 0
+    for c in sorted(M.all_classes(), key=lambda k: k.name):
+        if "_compatibility" in c.mod.rel:
+            continue
+        lock_attrs = set()
+        for f in c.all_defs:
+            if isinstance(f.node, ast.Lambda) or f.cls is not c:
+                continue
+            for n in own_nodes(f.node):
+                if isinstance(n, (ast.Assign, ast.AnnAssign)) and getattr(n, "value", None) is not None and isinstance(n.value, ast.Call) and unparse(n.value.func).split(".")[-1] in ("Lock", "RLock"):
+                    for t in [n.target] if isinstance(n, ast.AnnAssign) else n.targets:
+                        if isinstance(t, ast.Attribute) and isinstance(t.value, ast.Name) and t.value.id == f.self_name:
+                            lock_attrs.add(t.attr)
+        if not lock_attrs:
+            continue
+        n_cls += 1
+        for f in sorted(c.all_defs, key=lambda g: g.qual):
+            if isinstance(f.node, ast.Lambda) or f.cls is not c or f.name in CTORS:
+                continue
+            rr.inst()
+            bad = None
+            for n in own_nodes(f.node):
+                if isinstance(n, ast.Call) and isinstance(n.func, ast.Attribute) and n.func.attr == "__init__" and isinstance(n.func.value, ast.Name) and n.func.value.id == f.self_name:
+                    bad = bad or (n, f"re-runs `{unparse(n)[:60]}` on the live object, which creates a NEW lock")
+                if isinstance(n, (ast.Assign, ast.AnnAssign, ast.AugAssign)):
+                    for t in ([n.target] if not isinstance(n, ast.Assign) else n.targets):
+                        if isinstance(t, ast.Attribute) and isinstance(t.value, ast.Name) and t.value.id == f.self_name and t.attr in lock_attrs:
+                            bad = bad or (n, f"assigns the lock attribute `{t.attr}` again")
+            if bad is None:
+                rr.ok({"method": f.qual})
+            else:
+                rr.fail(f.qual, f"{bad[1]}: a thread waiting on the old lock and the next caller then hold different locks and run the critical section at the same time", ctx.loc(f, bad[0]))
+    if n_cls == 0:
+        from ..model import AnalysisError
+
+        raise AnalysisError("no class creating a threading lock was found (FakeClock is expected)")
+    return rr
